@@ -23,7 +23,9 @@ META = dict(
          "(the spec only checks that they do not exceed the proportional share of the reserves). Asset decimals are powers of ten. "
          "Payout attribution by balance deltas is only done when a gauge is the sole payer of its denom in a block. In the model walk a "
          "farm message is followed by the real queue-activation routine run with a shifted clock; the random drivers let the queue run naturally. "
-         "External reward programs: locker programs are exercised; vault/lend/stable-mint programs only have their books projected (none is created).",
+         "External reward programs: locker programs (real locker messages) and lend programs are exercised; the lend positions the lend programs pay to are "
+         "fixture records written with the lend keeper's setters (app with kill switch on, so the unwrapped V2 borrow-liquidation sweep ignores them); "
+         "vault / stable-mint programs only have their books projected (none is created).",
     design_ref="4 C19",
 )
 
@@ -102,9 +104,9 @@ def run(c):
     c.samples = [dict(id=s["id"], run=s["run"], a=s["a"], args=s["args"], parent=s["parent"],
                       st=dict(s["st"], users=s["st"].get("users", [])[:2]) if "users" in s["st"] else s["st"]) for s in smp if s]
     need = ["splits", "bigSplits", "gaugeEpochs", "proRataPaid", "masterPaid", "skippedEpochBlocks", "created", "rejected", "gaugesEnded",
-            "noPriceEpochs", "swapFeePaid", "extPayBlocks", "bigStates", "roots"]
+            "noPriceEpochs", "swapFeePaid", "extPayBlocks", "lendPayBlocks", "bigStates", "roots"]
     zero = [k for k in need if st.get(k, 0) == 0]
-    if zero:
+    if zero and not c.violations:   # a violation on real-code states is a verdict even if other antecedents were not exercised
         raise vlib.NoVerdict("vacuous run, antecedent counters are 0: %s (%s)" % (zero, st))
     return c.finish("model_checking", dict(
         states=dist, transitions=gen, traces_validated_against_impl=len(nodes),
@@ -116,9 +118,10 @@ def run(c):
              "below, at and beyond two epoch durations, master/child gauges) is executed once on the real application by walking the model's "
              "transition graph on nested cache contexts; (c) seeded behaviours: up to ~12 gauges over 3 pools, 4 farmers, own and shared reward denoms, "
              "real-size amounts (6/8/18 decimals), natural queue activation, price loss/recovery, reserve donations, swap-fee gauges, locker reward "
-             "programs. Every recorded state is a TLC state of Trace_Gauge."),
+             "programs, lend (borrower) reward programs paid in a priced asset that gauges also use. Every recorded state is a TLC state of Trace_Gauge."),
         assumptions=["asset decimals are powers of ten (exact sdk.Dec valuation)",
                      "per-farmer payouts are attributed by balance deltas only when the gauge is the only payer of its denom in that block "
                      "(aggregate laws are judged always)",
                      "deposits <= 10^18 and per-farmer rewards < 2^63 (the code converts the float reward with int64() and the deposit with Uint64())",
-                     "external programs: locker programs run; vault / lend / stable-mint programs are projected but not created by the drivers"])
+                     "external programs: locker and lend programs run (lend positions are fixture records written with the lend keeper's setters); "
+                     "vault / stable-mint programs are projected but not created by the drivers"])
